@@ -43,15 +43,27 @@ ITEMS = {
 }
 
 
+CTX = {"cls": "cstruct", "mod": None}
+
+
+def _modname(node):
+    """Name of a library-level helper (CharArray, Array, ...), with or without the module prefix used in file stubs."""
+    if isinstance(node, ast.Name) and CTX["mod"] is None:
+        return node.id
+    if isinstance(node, ast.Attribute) and isinstance(node.value, ast.Name) and node.value.id == CTX["mod"]:
+        return node.attr
+    return None
+
+
 def resolve_hint(node, cs):
-    if isinstance(node, ast.Attribute) and isinstance(node.value, ast.Name) and node.value.id == "cstruct":
+    if isinstance(node, ast.Attribute) and isinstance(node.value, ast.Name) and node.value.id == CTX["cls"]:
         return ("type", getattr(cs, node.attr, None), node.attr)
+    if _modname(node) in ("CharArray", "WcharArray"):
+        return (_modname(node),)
     if isinstance(node, ast.Name):
-        if node.id in ("CharArray", "WcharArray"):
-            return (node.id,)
         return ("local", node.id)
-    if isinstance(node, ast.Subscript) and isinstance(node.value, ast.Name) and node.value.id in ("Array", "Pointer"):
-        return (node.value.id, resolve_hint(node.slice, cs))
+    if isinstance(node, ast.Subscript) and _modname(node.value) in ("Array", "Pointer"):
+        return (_modname(node.value), resolve_hint(node.slice, cs))
     return ("?", ast.dump(node)[:60])
 
 
@@ -91,15 +103,13 @@ def _same_shape(t, e):
     return expect_hint(t) == e
 
 
-def check(text, extra=None):
+def check(text, extra=None, legacy=False):
     """-> list of (kind, detail)"""
     from dissect.cstruct import cstruct
-    from dissect.cstruct import types as T
     from dissect.cstruct.tools.stubgen import generate_cstruct_stub
 
-    issues = []
     cs = cstruct()
-    cs.load(text)
+    cs.load(text, **({"deftype": cstruct.DEF_LEGACY} if legacy else {}))
     if extra:
         extra(cs)
     try:
@@ -111,7 +121,60 @@ def check(text, extra=None):
     except SyntaxError as e:
         line = stub.splitlines()[e.lineno - 1].strip()[:80] if e.lineno else ""
         return [("syntax", f"not valid Python: {line!r}")]
-    cls = tree.body[0]
+    CTX.update(cls="cstruct", mod=None)
+    return check_class(cs, tree.body[0])
+
+
+def check_file(texts):
+    """A module that creates one cstruct object per text (c0, c1, ...): generate_file_stub must declare a class per object, each naming exactly
+    that object's definitions - also when the objects define types of the same name."""
+    import tempfile
+    from pathlib import Path
+
+    from dissect.cstruct import cstruct
+    from dissect.cstruct.tools.stubgen import generate_file_stub
+
+    src = "from dissect.cstruct import cstruct\n" + "".join(f"c{i} = cstruct().load({t!r})\n" for i, t in enumerate(texts))
+    with tempfile.TemporaryDirectory(prefix="c20-") as d:
+        path = Path(d) / "defs_mod.py"
+        path.write_text(src)
+        try:
+            stub = generate_file_stub(path, Path(d))
+        except Exception as e:  # noqa: BLE001
+            return [("generate:raises", f"{impl.exc_sig(e)} {e!r}")]
+    try:
+        tree = ast.parse(stub)
+    except SyntaxError as e:
+        line = stub.splitlines()[e.lineno - 1].strip()[:80] if e.lineno else ""
+        return [("syntax", f"not valid Python: {line!r}")]
+    issues = []
+    classes = {n.name: n for n in tree.body if isinstance(n, ast.ClassDef)}
+    names = {n.target.id: n for n in tree.body if isinstance(n, ast.AnnAssign) and isinstance(n.target, ast.Name)}
+    for i, t in enumerate(texts):
+        cname = f"_c{i}"
+        if cname not in classes:
+            issues.append(("file:missing-class", f"no class for cstruct object c{i}"))
+            continue
+        node = names.get(f"c{i}")
+        if node is None or not (isinstance(node.value, ast.Name) and node.value.id == cname):
+            issues.append(("file:missing-object-name", f"module attribute c{i} is not declared as {cname}"))
+        cs = cstruct()
+        cs.load(t)
+        CTX.update(cls=cname, mod="__cs__")
+        try:
+            issues += [(k, f"c{i}: {d_}") for k, d_ in check_class(cs, classes[cname])]
+        finally:
+            CTX.update(cls="cstruct", mod=None)
+    for extra in set(classes) - {f"_c{i}" for i in range(len(texts))}:
+        issues.append(("file:extra-class", extra))
+    return issues
+
+
+def check_class(cs, cls):
+    from dissect.cstruct import cstruct
+    from dissect.cstruct import types as T
+
+    issues = []
     empty = cstruct()
     declared = {}
     for node in cls.body:
@@ -158,7 +221,11 @@ def check(text, extra=None):
                 if h[0] == "type":
                     ok = h[1] is t
                 elif h[0] == "local":
-                    ok = h[1] in declared and h[1] in cs.typedefs and cs.resolve(h[1]) is t
+                    # the target must itself be declared: a class, or an alias declared EARLIER (never the alias itself)
+                    order = list(declared)
+                    tgt = declared.get(h[1])
+                    ok = tgt is not None and h[1] != n and (isinstance(tgt, ast.ClassDef) or order.index(h[1]) < order.index(n))
+                    ok = ok and h[1] in cs.typedefs and cs.resolve(h[1]) is t
                 elif h[0] in ("Array", "Pointer", "CharArray", "WcharArray"):
                     ok = match(h, expect_hint(t), {}, aliases, cs)
                 if not ok:
@@ -233,6 +300,51 @@ def run_sets(tier, chunk) -> JobResult:
     return res
 
 
+LEGACY = {
+    "tagged_typedef": "typedef struct _SECTION {\n uint32 offset;\n char name[8];\n} SECTION, SECTION_ALIAS;\n",
+    "anon_typedef": "typedef struct {\n uint8 major;\n uint8 minor;\n} VI;\n",
+    "plain": "struct IMAGE {\n uint8 a;\n uint16 b[2];\n uint8 *p;\n uint16 bits:4;\n uint16 rest:12;\n};\n",
+    "enum": "enum LE : uint8 {\n A = 1,\n B\n};\n",
+    "flag": "flag LF {\n X,\n Y\n};\n",
+    "consts": "#define LVERSION 2\n#define LNAME \"x\"\n",
+    "scalar_typedef": "typedef uint16 LWORD;\n",
+    "user": "struct USER {\n _SECTION first;\n SECTION second;\n VI v[2];\n LE e;\n LWORD w;\n};\n",
+}
+FILE_CORE = ["struct", "nested_named", "inline_named", "anon_member", "enum", "typedef_struct", "typedef_anon_struct2", "typedef_array", "consts", "union_in_struct", "anon_enum", "flag"]
+
+
+def legacy_sets():
+    keys = [k for k in LEGACY if k != "user"]
+    out = [(k,) for k in keys] + list(itertools.permutations(keys, 2))
+    out.append(("consts", "tagged_typedef", "anon_typedef", "enum", "scalar_typedef", "user"))
+    out.append(("scalar_typedef", "enum", "anon_typedef", "tagged_typedef", "user", "plain", "flag"))
+    return out
+
+
+def run_other(tier, mode, chunk) -> JobResult:
+    res = JobResult()
+    for combo in chunk:
+        res.evaluations += 1
+        res.states += 1
+        res.transitions += 2
+        res.traces += 1
+        res.nontrivial += 1
+        try:
+            if mode == "legacy":
+                iss = check("\n".join(LEGACY[c] for c in combo), legacy=True)
+            else:
+                iss = check_file([ITEMS[c] for c in combo])
+        except Exception:  # noqa: BLE001
+            import traceback
+
+            iss = [("checker-crash", traceback.format_exc()[-400:])]
+        for kind, d in iss:
+            k = "checker:" + kind if kind == "checker-crash" else kind
+            res.violations.append(Violation(k, f"{mode}|{kind}|{str(d)[:50]}", {mode: list(combo)}, f"{mode} definitions {list(combo)}: {kind}: {d}", {"items": "+".join(combo), "mode": mode}))
+    res.samples.append({mode: [list(c) for c in chunk[:2]]})
+    return res
+
+
 def special(tier) -> JobResult:
     """Types added through the API (string aliases) and second-level aliases of array types."""
     res = JobResult()
@@ -260,13 +372,20 @@ def special(tier) -> JobResult:
 def jobs(tier):
     keys = list(ITEMS)
     sets = [(k,) for k in keys] + list(itertools.permutations(keys, 2))
+    core = ["struct", "nested_named", "inline_named", "anon_member", "enum", "anon_enum", "typedef_scalar", "typedef_anon_struct2", "typedef_array", "consts", "flag_zero_composite", "ptrs"]
     if tier == "thorough":
-        core = ["struct", "nested_named", "inline_named", "anon_member", "enum", "anon_enum", "typedef_scalar", "typedef_anon_struct2", "typedef_array", "consts", "flag_zero_composite", "ptrs"]
-        sets += list(itertools.permutations(core, 3))
+        sets += list(itertools.permutations(keys, 3))
+        sets += list(itertools.permutations(core[:8], 4))
     else:
-        core = ["nested_named", "inline_named", "anon_member", "enum", "typedef_anon_struct2", "typedef_array", "consts"]
         sets += list(itertools.permutations(core, 3))
     out = [("special", tier)]
+    ls = legacy_sets()
+    for i in range(0, len(ls), 20):
+        out.append(("legacy", tier, ls[i : i + 20]))
+    fc = FILE_CORE if tier == "quick" else list(ITEMS)
+    fs = [(a,) for a in fc] + list(itertools.product(fc, repeat=2))  # incl. (a, a): two objects defining the same names
+    for i in range(0, len(fs), 30):
+        out.append(("file", tier, fs[i : i + 30]))
     for i in range(0, len(sets), 40):
         out.append(("sets", tier, sets[i : i + 40]))
     return out
@@ -275,12 +394,17 @@ def jobs(tier):
 def run(job) -> JobResult:
     if job[0] == "special":
         return special(job[1])
+    if job[0] in ("legacy", "file"):
+        return run_other(job[1], job[0], job[2])
     return run_sets(job[1], job[2])
 
 
 def replay(case):
     if "special" in case:
         return [v for v in special("thorough").violations if v.case == case]
+    for mode in ("legacy", "file"):
+        if mode in case:
+            return run_other("thorough", mode, [tuple(case[mode])]).violations
     return run_sets("thorough", [tuple(case["items"])]).violations
 
 
@@ -292,7 +416,9 @@ def meta(tier):
         "stub generated; an AST-level checker verifies: valid Python, every user type / alias / constant declared exactly once under its name, nothing "
         "declared that the object does not provide, constant literals equal the constants, enum members, field names in order, every field "
         "hint denotes the field's actual type (identity for named types, same shape for arrays/pointers), inline classes only for "
-        "non-global types; plus API-added aliases and aliases of array/pointer typedefs; non-trivial = sets of >=2 items",
-        "bounds": {"items": len(ITEMS), "set_size": 3},
+        "non-global types; plus API-added aliases and aliases of array/pointer typedefs; definitions loaded through the legacy (regex) parser (singles, ordered pairs, two "
+        "full sets); generate_file_stub on a module with one or two cstruct objects (every ordered pair of item sets incl. the same set twice) checked per object; "
+        "non-trivial = sets of >=2 items",
+        "bounds": {"items": len(ITEMS), "set_size": 3 if tier == "quick" else 4, "triples_over": 12 if tier == "quick" else len(ITEMS), "legacy_items": len(LEGACY), "file_items": len(FILE_CORE) if tier == "quick" else len(ITEMS)},
         "assumptions": ["names that are not Python identifiers cannot be declared and are outside the alphabet"],
     }
